@@ -193,7 +193,7 @@ def Clean (t : Table) : Prop := t.part.parent = #[]
 theorem canon_clean {t : Table} (h : Clean t) (c : Nat) : t.canon c = c := by
   unfold Table.canon Part.find
   rw [h]
-  rfl
+  cases t.part.fuel <;> simp [rootFuel]
 
 /-- `t[t[c][g]][−g] = c` wherever `t[c][g]` is defined -/
 def InvC (t : Table) : Prop :=
